@@ -10,15 +10,15 @@ from __future__ import annotations
 
 import numpy as np
 
-from .. import gens
+from .. import forms, gens
 from ..common import Skip, brief
 
 ID = "C13"
 CASES = {"quick": 480, "thorough": 6000}
 FLOOR = {"quick": 420, "thorough": 5500}
 FLOOR_COUNTERS = {
-    "quick": {"relations_judged": 6000, "x_wider_cases": 50, "x_narrower_cases": 50, "lre_calls": 900, "grd_calls": 800, "overlapping_index_cases": 80, "planted_map_cases": 60, "reference_implementations_judged": 250, "large_offset_shift_relations": 100, "integer_typed_inputs": 150, "target_rotations_with_default_scoring": 150, "index_arrays_reused_on_other_data": 30, "parallel_lre_calls": 20, "weak_direction_planted_maps": 15},
-    "thorough": {"relations_judged": 80000, "x_wider_cases": 600, "x_narrower_cases": 600, "lre_calls": 12000, "grd_calls": 10000, "overlapping_index_cases": 1000, "planted_map_cases": 800, "reference_implementations_judged": 3500, "large_offset_shift_relations": 1200, "integer_typed_inputs": 2000, "target_rotations_with_default_scoring": 2000, "index_arrays_reused_on_other_data": 400, "parallel_lre_calls": 300, "weak_direction_planted_maps": 200},
+    "quick": {"relations_judged": 6000, "x_wider_cases": 50, "x_narrower_cases": 50, "lre_calls": 900, "grd_calls": 800, "overlapping_index_cases": 80, "planted_map_cases": 60, "reference_implementations_judged": 250, "large_offset_shift_relations": 100, "integer_typed_inputs": 150, "target_rotations_with_default_scoring": 150, "index_arrays_reused_on_other_data": 30, "parallel_lre_calls": 20, "weak_direction_planted_maps": 15, "reused_estimators_with_a_refused_call": 30, "shared_scaler_objects": 60},
+    "thorough": {"relations_judged": 80000, "x_wider_cases": 600, "x_narrower_cases": 600, "lre_calls": 12000, "grd_calls": 10000, "overlapping_index_cases": 1000, "planted_map_cases": 800, "reference_implementations_judged": 3500, "large_offset_shift_relations": 1200, "integer_typed_inputs": 2000, "target_rotations_with_default_scoring": 2000, "index_arrays_reused_on_other_data": 400, "parallel_lre_calls": 300, "weak_direction_planted_maps": 200, "reused_estimators_with_a_refused_call": 400, "shared_scaler_objects": 800},
 }
 RULE = (
     "case = X, Y with equal sample count (12-60) and feature counts 2-8 on each side (X wider / equal / narrower by "
@@ -81,6 +81,8 @@ def gen(rng, tier, index):
         "extra_rows": int(rng.integers(1, 12)),
         "rot_scoring": gens.pick(rng, ("neg_mean_squared_error", None)),
         "n_jobs": 2 if index % 16 == 5 else None,  # the local measure's public parallel entry
+        "reused_estimator": bool(rng.random() < 0.6),
+        "shared_scaler": bool(rng.random() < 0.5),
         "nearly_collinear": {"delta": float(10.0 ** rng.uniform(-6, -3)), "noise": rng.normal(size=n), "A": rng.normal(size=(f, 3)), "a": rng.normal(size=3)} if index % 5 == 2 else None,
         "idx": idx,
         "train_idx": tr,
@@ -220,6 +222,20 @@ def run(case, j):
             z = M.global_reconstruction_error(X, X @ A, **dict(ikw))
             j.ok("GRE(X, X A) vanishes for a linear map A", z <= 1e-8, {"value": float(z), "A": A.shape})
             j.note("relations_judged")
+        # a user estimator object that is re-used, with a refused call in its history: a local-measure call with a misspelt
+        # option raises inside the estimator's fit; the option is corrected and the same object serves the next call
+        if case.get("reused_estimator"):
+            from skmatter.linear_model import Ridge2FoldCV as _R2F
+
+            ue = _R2F(alphas=np.geomspace(1e-9, 0.9, 20), alpha_type="relative", regularization_method="cut-off", random_state=0, shuffle=True)
+            p0 = {k_: repr(v_) for k_, v_ in ue.get_params().items()}
+            if forms.rejected(j, "local measure with a misspelt option of the user's estimator", M.local_reconstruction_error, X, Y, max(2, nloc // 2), estimator=ue, **dict(ikw)):
+                p1 = {k_: repr(v_) for k_, v_ in ue.get_params().items()}
+                j.ok("a refused call leaves the user's estimator object as it was", p0 == p1, {k_: (p0[k_], p1[k_]) for k_ in p0 if p0[k_] != p1[k_]})
+                ue.regularization_method = "cutoff"
+                zz = j.lib("GRE with the re-used estimator", M.global_reconstruction_error, X, X @ case["A"][1], estimator=ue, **dict(ikw))
+                j.ok("GRE(X, X A) vanishes with a user estimator that was refused a call before", zz <= 1e-8, float(zz))
+                j.note("reused_estimators_with_a_refused_call")
         z = M.global_reconstruction_distortion(X, X @ case["Q"], **dict(ikw))
         j.ok("GRD(X, X Q) vanishes for orthogonal Q", z <= 1e-8, float(z))
         j.note("relations_judged")
@@ -271,6 +287,19 @@ def run(case, j):
         ref_gre = np.linalg.norm(Yb - Xb @ W, axis=1)
         got = M.pointwise_global_reconstruction_error(X, Y, train_idx=tr, test_idx=te, estimator=e())
         j.close("pointwise GRE == explicit scaled ridge reconstruction error", got, ref_gre, 1e-8 * max(1.0, float(ref_gre.max())))
+        if case.get("shared_scaler") and len(tr) >= f + 4 and np.linalg.cond(Xa) <= 1e4:
+            # ONE scaler object serves as `scaler=` and as the first step of the user's pipeline estimator
+            from sklearn.linear_model import LinearRegression as _LR
+            from sklearn.pipeline import make_pipeline
+
+            from skmatter.preprocessing import StandardFlexibleScaler as _SFS
+
+            ss_ = _SFS(column_wise=False)
+            got_p = j.lib("pointwise GRE with a shared scaler object", M.pointwise_global_reconstruction_error, X, Y, train_idx=tr, test_idx=te, scaler=ss_, estimator=make_pipeline(ss_, _LR()))
+            B_ = np.linalg.lstsq(np.hstack([Xa, np.ones((len(Xa), 1))]), Ya, rcond=None)[0]
+            ref_p = np.linalg.norm(Yb - np.hstack([Xb, np.ones((len(Xb), 1))]) @ B_, axis=1)
+            j.close("pointwise GRE with one scaler object in both roles == explicit scaled least squares", got_p, ref_p, 1e-7 * max(1.0, float(ref_p.max())))
+            j.note("shared_scaler_objects")
         mc = max(f, p)
         Om = orthogonal_procrustes(np.pad(Xa, [(0, 0), (0, mc - f)]), np.pad(Xa @ W, [(0, 0), (0, mc - p)]))[0]
         ref_grd = np.linalg.norm(np.pad(Xb @ W, [(0, 0), (0, mc - p)]) - np.pad(Xb, [(0, 0), (0, mc - f)]) @ Om, axis=1)
